@@ -4,7 +4,7 @@ Each model is listed in the evidence as an *assumed contract* and is validated a
 implementation by the encoding cross-check (rt engine), never proved.
 """
 from .folds import Seq, seq_map
-from .sym import Unsupported
+from .sym import Unsupported, isi
 
 
 def filter_map_concat_model(mazmod):
@@ -24,7 +24,7 @@ def filter_map_concat_model(mazmod):
         def __call__(self, objects):
             from .shim import _materialise
             m = _materialise(objects)
-            if not isinstance(m, Seq):
+            if not isi(m, Seq):
                 return self._real(m)
             p, t, f = self.filter_predicate, self.tmap_function, self.fmap_function
             return seq_map(lambda x: t(x) if p(x) else f(x), m)
@@ -47,7 +47,7 @@ def id_generator_model(orig):
     def _id_generator(propositions, value, sign, prefix="VAR"):
         if not have_ctx():
             return orig(propositions, value, sign, prefix)
-        symbolic = is_sym(value) or is_sym(sign) or isinstance(propositions, Seq) or has_abstract(propositions)
+        symbolic = is_sym(value) or is_sym(sign) or isi(propositions, Seq) or has_abstract(propositions)
         if not symbolic:
             propositions = list(propositions)
             symbolic = any(getattr(type(p), "_pyvc_proxy", False) or is_sym(p.id) for p in propositions)
